@@ -19,8 +19,9 @@
      rockredis/t_hash.go   hSetField HSet HMset HDel HIncrBy HClear hDeleteAll HLen HGet HExist HMget HGetAll HKeys HValues HKeyExists
      rockredis/t_set.go    SAdd SRem SPop SClear sDelete sIncrSize SCard SIsMember SMembers SRandMembers sMembersN SKeyExists
      rockredis/t_zset.go   (see MapZ.v)      rockredis/t_list.go (see MapL.v)
-   Not modelled here: expiry (ExpireAt stays 0: the *expire/*persist commands are outside this model;
-   property C10 owns them), table key counters, secondary hash indexes, slow-log/metrics side effects.
+   Expiry: the ExpireAt field of the header is kept next to each record (Exp.v, Run.v); the handlers
+   below are what runs on a live (or, for the renewing handlers, renewed) header.
+   Not modelled here: table key counters, secondary hash indexes, slow-log/metrics side effects.
    No proofs in this file. *)
 From ZV Require Export Data.Base.
 From ZV Require Import Data.Consts.
